@@ -389,7 +389,7 @@ def run_job(doc, log):
     if exc is not None:
         log.count("early-stop-file-read-back")
     # a second, independent job with default data only, evaluated later in the same process
-    if opts.get("second_job") and exc is None:
+    if opts.get("second_job"):
         d2 = copy.deepcopy(doc)
         d2["faults"] = []
         w2 = world.World(d2)
